@@ -12,6 +12,8 @@ Definition deps (s : istate) (k : key) : list dep := res_deps (res_of s k).
 (* complete in the current epoch *)
 Definition curk (s : istate) (k : key) : Prop := kind_of s k = KComplete /\ bAt s k = is_epoch s.
 Definition idle (s : istate) (k : key) : Prop := kind_of s k <> KWaiting /\ kind_of s k <> KComputing.
+(* neither being scanned nor settled by a scan or a task *)
+Definition unsettled (s : istate) (k : key) : Prop := kind_of s k <> KScanning /\ kind_of s k <> KDoesNotNeedToRun /\ kind_of s k <> KComplete.
 
 (* outstanding input requests, now including the ones paused on a rule that is being scanned *)
 Definition Unrouted (s : istate) (rq : ireq) : Prop := In rq (is_inreq s) \/ exists k, In rq (ri_paused (rinfo_of s k)).
@@ -86,7 +88,8 @@ Record BC (s : istate) : Prop := {
   b_be : forall k, bAt s k = is_epoch s -> kind_of s k = KComplete;
   b_sig : forall k, bAt s k <> 0 -> res_sig (res_of s k) = r_sig (rules k);
   b_rows : forall k, idle s k -> bAt s k <> 0 -> rowok s k;
-  b_closed : forall k, curk s k -> forall d, In d (deps s k) -> curk s (d_key d)
+  b_closed : forall k, curk s k -> forall d, In d (deps s k) -> curk s (d_key d);
+  b_ns : forall k d, In d (deps s k) -> d_single d = false
 }.
 (* scanning.  [x]: a rule whose scan has just begun and whose requester has not yet been entered into its scan record *)
 Record BS (x : option key) (s : istate) : Prop := {
